@@ -30,14 +30,28 @@ def mk_link(name, N=2, lanes=2, cls=None):
 
 SAME_NAME = (lambda lab: "x")
 
+_USER_CLASSES = {}
+
+
+def as_user_subclass(o):
+    """Turns a library element into an instance of a trivial USER-DEFINED subclass of its class (class UserX(X): pass).
+    Every documented rule speaks about kinds of elements ('ramps', 'links', ...), and a subclass instance is of that kind."""
+    cls = type(o)
+    sub = _USER_CLASSES.get(cls)
+    if sub is None:
+        sub = _USER_CLASSES[cls] = type("User" + cls.__name__, (cls,), {"__slots__": ()})
+    o.__class__ = sub
+    return o
+
 
 class Universe:
     """Fresh real objects with labels.  `spec` maps label -> constructor description:
     nodes: 'node'; links: 'link'; origins: ('origin', kind); destinations: ('dest', kind);
     anything else: ('raw', object) for type-confusion tokens."""
 
-    def __init__(self, spec: dict, namer=None):
-        """namer: optional label -> element name (default: the label).  Distinct objects may share a name."""
+    def __init__(self, spec: dict, namer=None, subclass=False):
+        """namer: optional label -> element name (default: the label).  Distinct objects may share a name.
+        subclass: every element is an instance of a trivial user-defined subclass of its library class."""
         self.obj = {}
         self.kind = {}
         nm = namer or (lambda lab: lab)
@@ -55,6 +69,8 @@ class Universe:
                 o = what[1]
             else:
                 raise ValueError(what)
+            if subclass and what[0] != "raw":
+                o = as_user_subclass(o)
             self.obj[lab] = o
             self.kind[lab] = what
         self._lab = {id(o): lab for lab, o in self.obj.items()}
